@@ -5,6 +5,8 @@ package c16
 import (
 	"bytes"
 	"fmt"
+
+	abci "github.com/cometbft/cometbft/abci/types"
 	"math/big"
 	"os"
 	"sort"
@@ -129,7 +131,25 @@ func (w *world) runBlock(descs []*txDesc) {
 	for i, d := range descs {
 		txs[i] = d.Bz
 	}
-	ob := w.c.RunObserved(txs, nil, w.viewFn(track), true)
+	// mempool activity around the block, as on a node: every transaction is offered to CheckTx before the block
+	// (admission) and once more between FinalizeBlock and Commit (a user re-broadcasting; the mempool connection still
+	// answers from the check state of the previous block then). Crash-freedom aside, nothing is judged on these answers:
+	// what they may leave behind is judged by the ordinary per-transaction oracle on the following blocks.
+	offer := func(when string) {
+		for _, tx := range txs {
+			func() {
+				defer func() {
+					if p := recover(); p != nil {
+						w.run.Violation("checktx-panicked", w.label, map[string]any{"when": when, "panic": fmt.Sprint(p), "tx_bytes": fmt.Sprintf("%x", tx)})
+					}
+				}()
+				_, _ = w.c.App.CheckTx(&abci.RequestCheckTx{Tx: tx, Type: abci.CheckTxType_New})
+				w.run.Count("mempool_offers_"+when, 1)
+			}()
+		}
+	}
+	offer("before_block")
+	ob := w.c.RunObserved(txs, &vh.BlockOpt{BeforeCommit: func() { offer("between_finalize_and_commit") }}, w.viewFn(track), true)
 	if ob.Err != nil {
 		w.run.Violation("finalize-block-error", w.label, map[string]any{"height": ob.Height, "err": ob.Err.Error()})
 		return
@@ -293,8 +313,18 @@ func (w *world) checkTx(ob *vh.ObservedBlock, i int, d *txDesc) {
 		if kpre.Supply != s0[vh.Denom].String() || kpost.Supply != s1[vh.Denom].String() {
 			run.Violation("keeper-and-store-disagree-on-supply", w.label, wit(nil))
 		}
-		if kpost.Vauth != "0" {
-			run.Violation("fee-parked-in-module-account-not-burnt", w.label, wit(map[string]any{"vauth_module_balance": kpost.Vauth}))
+		// the module account the fee is burnt through ends with what it held before (it may hold coins of its own)
+		if kpost.Vauth != kpre.Vauth {
+			pre, _ := new(big.Int).SetString(kpre.Vauth, 10)
+			post, _ := new(big.Int).SetString(kpost.Vauth, 10)
+			sig := "fee-parked-in-module-account-not-burnt"
+			if pre != nil && post != nil && post.Cmp(pre) < 0 {
+				sig = "module-account-holdings-burnt-with-the-fee"
+			}
+			run.Violation(sig, w.label, wit(map[string]any{"vauth_module_balance_before": kpre.Vauth, "vauth_module_balance_after": kpost.Vauth}))
+		}
+		if kpre.Vauth != "0" && len(d.Proofs) > 0 && ok {
+			run.Count("accepted_submissions_while_the_module_account_holds_coins", 1)
 		}
 	}
 	if len(d.Proofs) > 0 && ok {
@@ -517,6 +547,7 @@ func Run(run *vh.Run) {
 	run.Floor("vesting accounts created (each checked for a prior proof)", run.Get("vesting_accounts_created"), q(25, 750))
 	run.Floor("vesting creations for unproven targets rejected", run.Get("vest_target_unproven_rejected"), q(60, 1800))
 	run.Floor("accepted proof submissions (stored record verified, burn and charge checked)", run.Get("burn_checked_accepted"), q(100, 3000))
+	run.Floor("accepted proof submissions while the burning module account holds coins of its own", run.Get("accepted_submissions_while_the_module_account_holds_coins"), q(30, 900))
 	run.Floor("rejected proof submissions (nothing stored, nothing burnt)", run.Get("burn_checked_rejected"), q(100, 3000))
 	run.Floor("scenario kinds exercised", int64(run.DistinctN("scenarios")), 9)
 	run.Floor("deepest nesting of a vesting-creation message", run.Get("deepest_vesting_nesting"), 5)
